@@ -92,7 +92,9 @@ func perturbed(rng *rand.Rand, r *model3d.Ray, n int) []*model3d.Ray {
 	return res
 }
 
-func copyRay(r *model3d.Ray) *model3d.Ray { return &model3d.Ray{Origin: r.Origin, Direction: r.Direction} }
+func copyRay(r *model3d.Ray) *model3d.Ray {
+	return &model3d.Ray{Origin: r.Origin, Direction: r.Direction}
+}
 
 func objects2(r *vlib.Run) {
 	r.Section("objects.chain", r.N(2000, 40000), vlib.SectionOpts{}, func(c *vlib.Case) {
